@@ -32,7 +32,7 @@ def spec(tier, seed):
             unc += ["inherited optional mode"]
         jobs.append(Job("h263", g.hdr_std_name(p, k, s, pv), 2400, allow_uncovered=tuple(unc), params={"mode": "standard", "phase": p, "kind": ["PTYPE", "PLUSPTYPE UFEP=000", "PLUSPTYPE UFEP=001", "PLUSPTYPE UFEP=001 + CPFMT"][k], "scalability": s, "previous_header": pv}, group="standard"))
     from vf import core_scenarios as cs
-    cgen, cjobs = cs.jobs_for(tier, seed, quick_n=6)
+    cgen, cjobs = cs.jobs_for('quick', seed, quick_n=6 if tier == 'quick' else 30)
     jobs += [j for j in cjobs if not j.is_kf_twin]
     CORE_GEN = cgen
     return {
